@@ -127,13 +127,21 @@ def oracle(line, impl_line):
         return "connection task crashed or panicked"
     if line.startswith("str_run "):
         # class sync-handoff: after the abort error the plain hand-off must succeed and the next request parser must deliver request 2
-        rows = [r for r in o if r and r[0] == 7]
-        if not any(r and r[0] == 2 and r[1:2] == [3] for r in o) and not any(r and r[0] == 2 for r in o):
+        import strobs
+        mode, a = parse_case(line)
+        saw_abort, nxt = False, None
+        for op, ev in strobs.walk(a[3:], o):
+            if ev["kind"] == "parse" and not ev["ok"]:
+                saw_abort = True
+            elif ev["kind"] == "next":
+                nxt = ev
+            elif ev["kind"] == "panic":
+                return "panic in the parser chain after a client abort"
+        if not saw_abort:
             return "the stream parser did not report the AbortRequest"
-        if not rows or rows[0][1:3] != [0, 1]:
-            return "after a client abort the hand-off to the next request parser failed (%s): the connection is not usable" % (rows[0][1:] if rows else "no hand-off")
-        k = o.index(rows[0])
-        if o[k + 3][0] != 2:
+        if nxt is None or not nxt["ok"] or not nxt["done"]:
+            return "after a client abort the hand-off to the next request parser failed (%s): the connection is not usable" % (nxt.get("code") if nxt else "no hand-off")
+        if nxt["req"][0] != 2:
             return "the request parsed after the abort is not request 2"
         return True
     cfg, rscript, wscript, segs, scripts = C07.decode_case(line)
